@@ -49,6 +49,7 @@ fn main() {
         "ram_bundle" => h_misc::ram_bundle(),
         "decode_extreme" => h_maps::decode_extreme(),
         "decode_document" => h_maps::decode_document(),
+        "decode_mutants" => h_misc::decode_mutants(),
         "adjust" => h_maps::adjust(false),
         "adjust_dups" => h_maps::adjust(true),
         _ => { eprintln!("unknown harness {name}"); std::process::exit(2); }
